@@ -125,6 +125,7 @@ def r10_2(prog, tab):
         for key in comp:
             f = prog.funcs[key]
             src = var_sources(f)
+            rdefs = deftree = None
             # fields of local/param structures assigned from a resolution result: arg->expr = parent_expr
             struct_fed = collections.defaultdict(set)    # var id -> blocks where a resolved expression is stored in it
             for b, i, e in f.events("assign"):
@@ -136,11 +137,31 @@ def r10_2(prog, tab):
                 if not tg:
                     continue
                 refdrv = False
+                if rdefs is None:
+                    from ..dataflow import reaching_defs
+                    rdefs, deftree = reaching_defs(f)
+                here = rdefs.get((b.id, i), {})
+                memo = {}
+
+                def from_res(tree, at, depth=0):
+                    """does the value of `tree`, evaluated with the definitions reaching `at`, come from the resolution family?"""
+                    for n in walk(tree):
+                        if n[0] == "call" and RES_RE.match(n[2]):
+                            return True
+                        if n[0] == "var" and n[2] in ("local", "param") and depth < 6:
+                            for dk in at.get(n[1], ()):
+                                if dk not in memo:
+                                    memo[dk] = False
+                                    memo[dk] = from_res(deftree.get(dk), rdefs.get(dk, {}), depth + 1)
+                                if memo[dk]:
+                                    return True
+                    return False
                 for a in e.get("args", []):
-                    srcs = src(a.get("tree"))
-                    if any(s_.startswith("call:") and RES_RE.match(s_[5:]) for s_ in srcs):
+                    if from_res(a.get("tree"), here):
                         refdrv = True
                     for n in walk(a.get("tree")):
+                        if False and n[0] == "call" and RES_RE.match(n[2]):
+                            refdrv = True
                         if n[0] == "var" and n[1] in struct_fed:
                             # the store must be able to reach this call
                             if any(b.id in f.reachable_from([sb]) for sb in struct_fed[n[1]]):
